@@ -325,7 +325,7 @@ def run_case(case) -> Result:
         # a zero (derived) composition coefficient makes the integrator re-assign an unchanged variable, which
         # legitimately empties the cache: outside the domain (the generator keeps |coefficient| >= 1e-2)
         free, k = it["free"], len(it["free"])
-        if min(abs(0.5 - sum(free[k % 2::2])), abs(1 - 2 * sum(free[(k + 1) % 2::2]))) < 1e-9 or min(map(abs, free)) < 1e-9:
+        if min(abs(0.5 - sum(free[k % 2::2])), abs(1 - 2 * sum(free[(k + 1) % 2::2]))) < 1e-9 or min(map(abs, free), default=1.0) < 1e-9:
             res.discarded = True
             res.classes.append("discard:zero-composition-coefficient")
             return res
